@@ -2,6 +2,7 @@ package props
 
 import (
 	"encoding/binary"
+	"sync"
 
 	"verif/fitmodel"
 )
@@ -134,6 +135,22 @@ func devFieldFile(h fitmodel.Header) []byte {
 	return buildFile(h, recs...)
 }
 
+// crcTuned: an activity file whose trailing CRC has a zero high byte, a zero low byte or is 0x0000 altogether (a
+// distance value is searched for), so that a decoder that substitutes stale or zero bytes for CRC bytes it never
+// read would accept a cut file.
+func crcTuned(h fitmodel.Header, mask uint16) []byte {
+	for v := uint32(0); v < 1<<20; v++ {
+		recs := fitmodel.FileIdRecords(0, 4)
+		recs = append(recs, recordDef(1, false).Bytes(), recordData(1, false, 1000000000, 61, 17), recordData(1, false, 1000000001, 62, v))
+		b := fitmodel.File(h, recs...)
+		crc := uint16(b[len(b)-2]) | uint16(b[len(b)-1])<<8
+		if crc&mask == 0 {
+			return buildFile(h, recs...)
+		}
+	}
+	panic("crcTuned: no value found")
+}
+
 func chain(name string, members ...[]byte) namedStream {
 	return namedStream{Name: name, B: fitmodel.Concat(members...), Members: members}
 }
@@ -164,3 +181,20 @@ var (
 	sChainState3 = chain("chain(monitoring-stateful,activity-3rec-be,monitoring-stateful)", sMonState.B, sAct3BE.B, sMonState.B)
 	sChainZero   = chain("chain(zero-size-fields,min12)", sZero.B, sMin12.B)
 )
+
+// The CRC-tuned streams are searched for, so they are built on first use (not at package initialisation, which
+// every fresh helper process of C08/C09/C14 would pay for).
+var (
+	crcOnce                              sync.Once
+	sCRChi0, sCRClo0, sCRC00, sChainCRC0 namedStream
+)
+
+func crcStreams() (hi0, lo0, zero, chain0 namedStream) {
+	crcOnce.Do(func() {
+		sCRChi0 = single("activity-crc-high-byte-zero", crcTuned(hdr14(), 0xFF00))
+		sCRClo0 = single("activity-crc-low-byte-zero", crcTuned(hdr12(), 0x00FF))
+		sCRC00 = single("activity-crc-0000", crcTuned(hdr14(), 0xFFFF))
+		sChainCRC0 = chain("chain(activity-crc-0000,activity-crc-high-byte-zero)", sCRC00.B, sCRChi0.B)
+	})
+	return sCRChi0, sCRClo0, sCRC00, sChainCRC0
+}
